@@ -170,13 +170,17 @@ pub fn run(tier: &str, seed: u64) -> Stats {
         // natural error with a valid signature: the id is unknown to an older serialization of the
         // same master key; the refused key and that master key must stay as they are
         if let Some(ob) = &older_msk {
-            for keep in [true, false] {
+            for (keep, stale) in [(true, false), (false, false), (true, true), (false, true)] {
                 let (Some(mut old), Some(before_u)) = (de::<MasterSecretKey>(ob).ok(), ser(&usk).ok()) else { continue };
+                if stale {
+                    // the key is also out of date for that master key: its rights were re-keyed there
+                    let _ = call(|| cc.rekey(&mut old, &ap));
+                }
                 let before_m = canon(&old);
                 let mut u = usk.clone();
                 let out = call(|| cc.refresh_usk(&mut old, &mut u, keep));
                 st.bump("natural_error_refresh_unknown_id");
-                st.shapes.insert(fnv(format!("unknown-id|keep={keep}|{n_dims}").as_bytes()));
+                st.shapes.insert(fnv(format!("unknown-id|keep={keep}|stale={stale}|{n_dims}").as_bytes()));
                 if let Out::Err(_) = out {
                     if ser(&u).ok().as_ref() != Some(&before_u) {
                         st.findings.push(Finding {
